@@ -74,6 +74,9 @@ K(pos) == tamper[pos]        \* the tampering applied at a position ("none" = un
                ancestor outside the signer zone, placed in the authority section (where foreign records are
                tolerated) -> only a DNAME of the signer zone may vouch for a synthesised CNAME, so the
                forged CNAME needs its own signature and has none that verifies
+   foreigndeny : the answer is replaced by NXDOMAIN/NODATA "proved" by unsigned NSEC records owned OUTSIDE the
+               signer zone (in its parent), next to the zone's genuine signed SOA -> records outside the
+               signer zone are never validated and must not count as proof: incomplete denial
    roguesig  : answer data altered and re-signed, signer name = the zone, with the attacker's key
                -> verifies only if that key was accepted into the zone's key set (roguekey)
 *)
@@ -128,7 +131,7 @@ Answer ==
        ELSE IF keyState = "none" THEN     \* provably insecure zone: data accepted unsigned;
          "insecure"                       \* foreign answer records are dropped, not fatal (C07's filter)
        ELSE
-         (IF BreaksSig(k) \/ k \in {"strip", "inject", "roguesig", "fakedname"} THEN "bogus"
+         (IF BreaksSig(k) \/ k \in {"strip", "inject", "roguesig", "fakedname", "foreigndeny"} THEN "bogus"
           ELSE IF NeedsProof /\ k \in {"dropproof", "foreignproof"} THEN "bogus"
           ELSE "secure")
   /\ pc' = "reply"
